@@ -244,6 +244,16 @@ def bounded(tier, seed, R):
                 nz = lambda x: x if isinstance(x, (int, float)) and not isinstance(x, bool) else 0
                 return close(got, sum(nz(x) * nz(y) for x, y in zip(cells, cells2)))
             R.guard('bounded/sumproduct', sp, {'a': rng, 'b': rng2})
+
+            def sp_counted():
+                # the result is a cell value like any other: a range holding it counts it as a number
+                got = X.sumproduct(rng, rng2)
+                if is_err(got):
+                    return True
+                return ST_.count(((got, 1),)) == 2 and close(X.sum_(((got, 1),)), got + 1)
+            R.guard('bounded/sumproduct_result_is_a_number', sp_counted, {'a': rng, 'b': rng2})
+    big = 4000000000
+    R.guard('bounded/sumproduct', lambda: X.sumproduct(((big,),), ((big,),)) == big * big, {'a': big, 'b': big})
     R.guard('bounded/sumproduct', lambda: X.sumproduct(((1, 2),), ((1,), (2,))) == VALUE_ERROR, {'shapes': 'mismatch'})
     # SUBTOTAL through the compiler
     from pycel.excelformula import ExcelFormula
